@@ -3,7 +3,12 @@
 property) and properties.jsonl (everything else goes to not_applicable)."""
 import json, os, subprocess
 V = os.path.dirname(os.path.abspath(__file__))
-checks = json.load(open(os.path.join(V, "checks.json")))
+import glob
+checks = {}
+for f in sorted(glob.glob(os.path.join(V, "harness", "cmd", "*", "descriptor.json"))):
+    for pid, c in json.load(open(f)).items():
+        c.setdefault("bin", os.path.basename(os.path.dirname(f)))
+        checks[pid] = c
 props = [json.loads(l) for l in open(os.path.join(V, "properties.jsonl"))]
 hooks = json.load(open(os.path.join(V, "hooks.json")))
 na_reasons = json.load(open(os.path.join(V, "not_applicable.json")))
